@@ -144,3 +144,13 @@ RUN = dict(
     unknown_calls="opaque", modifies=[],
 )
 CONTRACTS.append(RUN)
+
+
+FG = "pyrates/backend/computegraph.py"
+for _kind, _req, _ens in (("int", ["idx >= 0"], ["result == (old(idx), old(idx) + 1)"]),
+                          ("tuple(int,int)", ["0 <= idx[0]", "idx[0] < idx[1]"], ["result == (old(idx)[0], old(idx)[1])"])):
+    CONTRACTS.append(dict(
+        name=f"ComputeGraph._index_state_var[{_kind.split('(')[0]}]", prop="C03", target=f"{FG}::ComputeGraph._index_state_var",
+        params={"y": "matrix", "idx": _kind}, requires=_req,
+        # the columns selected from the state record are exactly the positions of the variable: [i, i+1) resp. [a, b)
+        ensures=_ens, modifies=[]))
